@@ -50,6 +50,8 @@ def make_param(ctx, st, name, kind):
         return st.alloc(HeapObj("inst", cls=kind.cls, fields=fields))
     if isinstance(kind, V):
         return kind                     # a fixed value (e.g. VFunc)
+    if callable(kind) and not isinstance(kind, Kind):
+        return kind(ctx, st)            # built by the contract (e.g. a concrete list in a cell)
     v = kind.fresh(ctx, name)
     for f in kind.wf(v):
         st.assume(f)
@@ -140,6 +142,7 @@ def verify_function(index, contracts, c, props_filter=None):
         n_ret = 0
         for s2, oc in results:
             if isinstance(oc, (Return, Normal)):
+                s2.ghost["returned"] = isinstance(oc, Return)       # a block unit may leave its function
                 rv = oc.value if isinstance(oc, Return) else VNone()
                 if c.result_kind is not None:
                     rv = ops.coerce(s2, rv, c.result_kind)
